@@ -1,14 +1,14 @@
 #!/bin/bash
-# Runs the repository's pinned test suite with the verif guard OFF, on an rsync copy of /repo's working tree
-# (the suite writes into the tree it runs in, so it must never run inside /repo).  Prints go test -json output.
-set -u
-COPY=$(mktemp -d /var/tmp/plz-baseline.XXXXXX)
-trap 'chmod -R u+w "$COPY" 2>/dev/null; rm -rf "$COPY"' EXIT
-rsync -a --exclude plz-out /repo/ "$COPY/"
-cd "$COPY" || exit 2
-export GOFLAGS=-mod=mod GOPROXY=off
-rc=0
-for m in . ./test ; do
-  (cd "$COPY/$m" && go test -mod=mod -json -vet=off -count=1 -timeout 25m ./...) || rc=$?
-done
-exit $rc
+# MANIFEST.hooks.baseline_off_cmd: the repository's pinned test suite with the verif guard OFF (no -tags), run on an rsync
+# copy of /repo's working tree (the suite writes into the tree it runs in), compared with /root/.vp/BASELINE.json's
+# stable_pass list.  Exit 0 iff all 347 stable tests pass.  The raw `go test -json` stream is kept in
+# /verif/.build/baseline.gotest.json for anyone who wants to parse it with their own tool.
+cd "$(dirname "$0")" && exec python3 - <<'PY'
+import sys
+sys.path.insert(0, ".")
+from vlib import baseline, core
+import os
+os.makedirs(core.BUILD, exist_ok=True)
+with core.Lock("baseline"):
+    sys.exit(baseline.run("/repo", keep_log=os.path.join(core.BUILD, "baseline.gotest.json")))
+PY
